@@ -39,11 +39,11 @@ def layout(rng):
             params["TAIL"] = {"name": "TAIL", "type": defgen.int_type("TAIL", rng.choice([8 - icpt, 8 - icpt, 8, 16]))}
             entries.append(["p", "TAIL"])
     elif kind == "bin_from_field":
-        params["N"] = {"name": "N", "type": defgen.int_type("N", 8, rng.choice(["unsigned", "signed"]))}
+        params["N"] = {"name": "N", "type": defgen.int_type("N", 8, rng.choice(["unsigned"] + defgen.SIGNED_SPELLINGS))}
         params["B"] = {"name": "B", "type": {"name": "B_T", "kind": "bin", "enc": {"t": "bin", "size": ["dyn", "N", rng.random() < 0.5, rng.choice([None, [8, 0], [1, -3], [-1, 4]])]}}}
         entries += [["p", "N"], ["p", "B"]]
     elif kind == "str_from_field":
-        params["N"] = {"name": "N", "type": defgen.int_type("N", 8, rng.choice(["unsigned", "signed"]))}
+        params["N"] = {"name": "N", "type": defgen.int_type("N", 8, rng.choice(["unsigned"] + defgen.SIGNED_SPELLINGS))}
         params["S"] = {"name": "S", "type": {"name": "S_T", "kind": "str", "enc": {"t": "str", "charset": "ISO-8859-1", "size": ["dyn", "N", False, rng.choice([[8, 0], [1, 0], [8, -8]])]}}}
         entries += [["p", "N"], ["p", "S"]]
     else:
